@@ -12,11 +12,11 @@ E1 = "E1 universe enumerator"
 CHECKS = {
  "C01": dict(engine=E1, cat="model_checking", ref="DESIGN.md §3 C01",
    technique="exhaustive enumeration of bounded universe families on the real solver + brute-force rule oracle",
-   text="Every (universe, problem) of the finite families F1/F1'/F2/F3/F4/F5/F9/F10/F11/F12 (F10 = a package first revealed after a decision for another transitive package, under per-package hint patterns; F11 = sequences of soft requirements sharing helper packages; F12 = a soft requirement revealing further candidates of an installed package; <=4 packages, <=3 versions, <=3 simultaneous decorations) is solved by the real Solver under every listed configuration (hints as-is/All/None, sync and controlled-async FIFO/LIFO, activity parameters, debug and release builds) and each returned solution is checked against an independent statement of the package rules. Exhaustive inside the stated families; says nothing about larger universes.",
+   text="Every (universe, problem) of the finite families F1/F1'/F2/F3/F4/F5/F9/F10/F11/F12 (F10 = a package first revealed after a decision for another transitive package, under per-package hint patterns; F11 = sequences of soft requirements sharing helper packages; F12 = a soft requirement revealing further candidates of an installed package; <=4 packages, <=3 versions, <=3 simultaneous decorations) is solved by the real Solver under every listed configuration (hints as-is/All/None, sync and controlled-async FIFO/LIFO, activity parameters, debug and release builds) and each returned solution is checked against an independent statement of the package rules; the clause database every solve leaves behind (read-only hook) must satisfy the structural invariant of the two-watched-literal lists and may contain no clause falsified by the final trail. Exhaustive inside the stated families; says nothing about larger universes.",
    note="Trusted: the harness's Universe->DependencyProvider adapter and the brute-force oracle (self-checked against hand-solved universes on every run)."),
  "C02": dict(engine=E1, cat="model_checking", ref="DESIGN.md §3 C02",
    technique="exhaustive universe enumeration; verdict vs brute-force satisfiability; learnt clauses certified on all assignments",
-   text="Same enumeration as C01 plus id layouts with gaps; the verdict must equal brute-force satisfiability; via the read-only clause dump every problem clause is checked against the provider data, the forbid clauses of each package must be exactly an at-most-one, and every learnt clause must hold in every total assignment that satisfies the problem clauses emitted before it (enumeration over <= 2^18 assignments). An unsound learnt clause is caught even when it has not flipped a verdict.",
+   text="Same enumeration as C01 plus id layouts with gaps; the verdict must equal brute-force satisfiability; via the read-only clause dump every problem clause is checked against the provider data, the forbid clauses of each package must be exactly an at-most-one, and every learnt clause must hold in every total assignment that satisfies the problem clauses emitted before it (enumeration over <= 2^18 assignments). An unsound learnt clause is caught even when it has not flipped a verdict; the watch lists of every solve must be structurally intact (every watching clause exactly once in the lists of its two watched literals), so a lost watch is caught long before it flips a verdict.",
    note="Clause dump comes from the verif-hooks feature (read-only). Learnt-clause certification skipped (and counted) above 18 variables."),
  "C03": dict(engine=E1, cat="model_checking", ref="DESIGN.md §3 C03",
    technique="exhaustive universe enumeration; conflict graph checked edge-by-edge and by enumeration of all node subsets",
@@ -64,11 +64,11 @@ CHECKS = {
    note="Inclusion rule evaluated for the first soft solvable of the list only."),
  "C15": dict(engine=E1, cat="model_checking", ref="DESIGN.md §3 C15",
    technique="enumeration of candidate counts n<=N, all pairs, all discovery shapes; at-most-one encoding certified from the clause dump",
-   text="One package with n candidates for every n <= 17 (quick) / 130 (thorough); every discovery shape of the menu (all at once, every arrival permutation for n <= 5, identity/reverse/interleaved/rotations above, blocks, two-phase at the split points, discovery under decisions that are later reverted, candidates that are false when a lazily fetched requirer reveals them); every pair must be Unsolvable, every single candidate selectable, also when the same problem is solved a second time on the same solver; the dumped forbid clauses (of both solves) must be exactly an at-most-one.",
+   text="One package with n candidates for every n <= 17 (quick) / 130 (thorough); every discovery shape of the menu (all at once, every arrival permutation for n <= 5, identity/reverse/interleaved/rotations above, blocks, two-phase at the split points, discovery under decisions that are later reverted, candidates that are false when a lazily fetched requirer reveals them, overlapping / growing / repeated revelations, wanted candidates listed first); every pair must be Unsolvable, every single candidate selectable, also when the same problem is solved a second time on the same solver; the dumped forbid clauses (of both solves) must be exactly an at-most-one.",
    note="Above n = 40 only pairs touching a power-of-two neighbourhood or the ends are enumerated (counted)."),
  "C16": dict(engine="E4 operation-sequence explorer", cat="model_checking", ref="DESIGN.md §3 C16",
    technique="universe enumeration x capture seeds x serde round trip x add_package_requirement histories, compared with brute force on the live universe",
-   text="For every universe (dense and gapped id layouts) every capture seed of the menu x {direct, serde_json round trip} x every history of 0..2 add_package_requirement calls (with with_timeout at every position of the history): captured version sets re-read after every addition, added ids fresh, the case's problem / highest captured version set / every added version set solved through the snapshot and compared with brute force on the live universe incl. preference order on conflict-free problems.",
+   text="For every universe (dense and gapped id layouts; incl. universes with two exclusion / Unknown decorations sharing one reason string) every capture seed of the menu x {direct, serde_json round trip} x every history of 0..2 add_package_requirement calls (with with_timeout at every position of the history): captured version sets re-read after every addition, added ids fresh, the case's problem / highest captured version set / every added version set solved through the snapshot and compared with brute force on the live universe incl. preference order on conflict-free problems.",
    note="Problems with union root requirements are not expressible through from_provider's seeds."),
  "C18": dict(engine="E4 operation-sequence explorer", cat="model_checking", ref="DESIGN.md §3 C18",
    technique="BFS over Pool interning histories from pre-filled start states with canonical-state dedup vs reference maps",
@@ -86,7 +86,7 @@ CHECKS = {
 
 CHECKS["C06"] = dict(engine=E1, cat="exploration", ref="DESIGN.md §3 C06, §10",
    technique="enumeration of instances x a fixed list of controlled hash-seed vectors x fresh solver instances, plus cross-process batch digests",
-   text="Every instance of F1 (all roots) / F3 (<= 1/2 decorations) / the dead-end family (<= 2/3 exclusion, unknown, empty-requirement, lock decorations) / the constrains families (F3 x <= 2/3 constrains decorations, a slice of F9-wide: one solvable constraining several version sets inside one conflict) / a slice of F4 is solved under K fixed ahash seed vectors (K = 4 quick, 16 thorough; seed control through ahash's set_random_source and --cfg fuzzing) x 2 fresh solvers, with hints as-is and All; the solution vector (order included) or the conflict message must be identical; the whole batch is digested again in separate processes with uncontrolled seeds. Exploration, not proof: the seed space is 2^256 and only a fixed list is enumerated.",
+   text="Every instance of F1 (all roots) / F3 (<= 1/2 decorations) / the dead-end family (<= 2/3 exclusion, unknown, empty-requirement, lock decorations) / the constrains families (F3 x <= 2/3 constrains decorations, a slice of F9-wide: one solvable constraining several version sets inside one conflict; all packages displaying the same name, with a provider that keeps the order of merged solvables in messages) / a slice of F4 is solved under K fixed ahash seed vectors (K = 4 quick, 16 thorough; seed control through ahash's set_random_source and --cfg fuzzing) x 2 fresh solvers, with hints as-is and All; the solution vector (order included) or the conflict message must be identical; the whole batch is digested again in separate processes with uncontrolled seeds. Exploration, not proof: the seed space is 2^256 and only a fixed list is enumerated.",
    note="std's SipHash keys in conflict.rs vary per instance but are not controlled; a seed-control probe must realise >= 2 iteration orders or the run exits 2.")
 CHECKS["C17"] = dict(engine="E5 C++/Rust differential driver", cat="model_checking", ref="DESIGN.md §3 C17, §10",
    technique="universe enumeration pushed through the C++ bridge and the Rust API in one ASan/UBSan process with a layout-checking allocator; exhaustive container-operation sequences vs std::vector",
